@@ -89,6 +89,30 @@ def check_case(ctx, cs):
                     ctx.violate("evalpts", t2 + ["outside_bbox"], small, {"bbox": bb, "last": pts[-1]})
                 elif o["clamped"] and not (close_seq(pts[0], cps[0]) and close_seq(pts[-1], cps[-1])):
                     ctx.violate("evalpts", t2 + ["clamped_ends"], small, {"first": pts[0], "last": pts[-1], "last_ctrlpt": cps[-1]})
+    elif o["op"] == "ends":
+        ctx.count(("ends", shape_key(sh)), sample={"op": "ends", **small, "last": o["last"]})
+        first, last = fl(frv(o["first"])), fl(frv(o["last"]))
+        lo, hi = fl(frv(o["bbox"][0])), fl(frv(o["bbox"][1]))
+        for ns in ((2, 3, 2), (4, 3, 3)):
+            t2 = tg + ["sample_size=" + "x".join(map(str, ns[:pd]))]
+
+            def sampled():
+                ob = build(sh)
+                for nm, n in zip("uvw"[:pd], ns):
+                    setattr(ob, "sample_size_" + nm, n)
+                return [list(x) for x in ob.evalpts]
+            ok, pts = _try(ctx, "evalpts", t2, small, sampled)
+            if not ok:
+                continue
+            want = 1
+            for n in ns[:pd]:
+                want *= n
+            if len(pts) != want:
+                ctx.violate("evalpts", t2 + ["count"], small, {"expected": want, "got": len(pts)})
+            elif not (close_seq(pts[0], first) and close_seq(pts[-1], last)):
+                ctx.violate("evalpts", t2 + ["clamped_ends"], small, {"first": pts[0], "last": pts[-1], "first_ctrlpt": first, "last_ctrlpt": last})
+            elif any(x < a - 1e-9 or x > b + 1e-9 for q in pts for x, a, b in zip(q, lo, hi)):
+                ctx.violate("evalpts", t2 + ["outside_bbox"], small, {"bbox": [lo, hi]})
     else:
         raise core.MachineryError("unknown op")
 
